@@ -64,6 +64,12 @@ type op struct {
 	TsAbs  uint32
 	TTLAbs uint32
 	Link   uint16
+	// Long != 0: timestamp = base+TsRel, TTL chosen so that timestamp+TTL lies near or
+	// beyond 2^32 (the sum does not fit the 32-bit fields it is made of):
+	// 1 TTL = 2^32-1; 2/3/4 timestamp+TTL = 2^32-1 / 2^32 / 2^32+1; 5 = 2^32+base-3
+	// (wraps to just before now); 6 TTL around 2.6e9 s.
+	Long int
+	Off  uint32
 }
 
 type revObs struct {
@@ -91,6 +97,23 @@ func (o op) rev(base int64) *path_mgmt.RevInfo {
 	r := &path_mgmt.RevInfo{IfID: iface.ID(k.IfID), RawIsdas: k.IA, LinkType: proto.LinkType(o.Link)}
 	if o.Abs {
 		r.RawTimestamp, r.RawTTL = o.TsAbs, o.TTLAbs
+	} else if o.Long != 0 {
+		ts := uint32(base + o.TsRel)
+		r.RawTimestamp = ts
+		switch o.Long {
+		case 1:
+			r.RawTTL = math.MaxUint32
+		case 2:
+			r.RawTTL = math.MaxUint32 - ts
+		case 3:
+			r.RawTTL = math.MaxUint32 - ts + 1
+		case 4:
+			r.RawTTL = math.MaxUint32 - ts + 2
+		case 5:
+			r.RawTTL = math.MaxUint32 - ts + 1 + uint32(base) - 3
+		default:
+			r.RawTTL = 2600000000 + o.Off
+		}
 	} else {
 		r.RawTimestamp = uint32(base + o.TsRel)
 		r.RawTTL = uint32(o.ExpRel - o.TsRel)
@@ -102,6 +125,13 @@ var tsPool = []int64{-2000, -100, -60, -20, -10, -5, 0, 1, 5, 40}
 
 func genInsert(r *vgen.Rand, sleeping bool) op {
 	o := op{Kind: opInsert, Key: r.Intn(len(pool)), Link: uint16(r.Intn(5))}
+	if r.Chance(1, 8) {
+		// very long-lived revocations: expiration near / beyond 2^32 seconds
+		o.Long = r.Range(1, 6)
+		o.Off = uint32(r.Intn(3)) * 700000000
+		o.TsRel = tsPool[r.Intn(len(tsPool))]
+		return o
+	}
 	if r.Chance(1, 25) {
 		// boundary values of the 32-bit fields
 		o.Abs = true
@@ -315,11 +345,19 @@ func emit(run *vgen.Run, h *hist) {
 			res = append(res, "RIns "+vgen.B(ob.B))
 			if o.Abs {
 				key = append(key, fmt.Sprintf("I%d/abs%d+%d/%d", o.Key, o.TsAbs, o.TTLAbs, o.Link))
+			} else if o.Long != 0 {
+				key = append(key, fmt.Sprintf("I%d/%d+long%d.%d/%d", o.Key, o.TsRel, o.Long, o.Off, o.Link))
+				run.Tally("insert:long-lived")
 			} else {
 				key = append(key, fmt.Sprintf("I%d/%d..%d/%d", o.Key, o.TsRel, o.ExpRel, o.Link))
 			}
 			d := map[string]any{"insert": o.Key, "ts_rel": o.TsRel, "exp_rel": o.ExpRel, "link": o.Link,
 				"t": T, "accepted": ob.B}
+			if o.Long != 0 {
+				d["ttl"] = rv.TTL
+				d["long"] = o.Long
+				delete(d, "exp_rel")
+			}
 			if o.Abs {
 				d["abs_ts"], d["abs_ttl"] = o.TsAbs, o.TTLAbs
 				delete(d, "ts_rel")
@@ -399,7 +437,7 @@ func main() {
 	run.Rule = "histories of 8-30 operations (55% Insert, 23% Get, 8% DeleteExpired, 6% GetAll, sleeps) on a fresh " +
 		"memrevcache over 3 interfaces (2 ASes); timestamps from a pool of 10 values (ties), expirations " +
 		"already-expired / short / far-future with >= 2 s margin to every instant an operation can run, 4% " +
-		"boundary values of the 32-bit fields; sleeping histories cross expirations with real 5 s sleeps; " +
+		"boundary values of the 32-bit fields, 12% very long-lived revocations (TTL 2^32-1, timestamp+TTL = 2^32-1 / 2^32 / 2^32+1 / wrapping to just before now, TTL ~2.6e9..4e9 s) mixed with clean-ups, lookups and older/newer inserts; sleeping histories cross expirations with real 5 s sleeps; " +
 		"non-trivial = the history contains a rejected insertion or a replacement"
 	rng := vgen.NewRand(run.Seed)
 
